@@ -6,6 +6,8 @@ import Ptn.C17.Unique
 import Ptn.C17.Linear
 import Ptn.C17.Reroot
 import Ptn.C17.Subtree
+import Ptn.C17.UpdatePath
+import Ptn.C17.Cache
 /-! Property theorems for C17 (tree navigation, TDVP sweep order, initial cache keys).  Only
 property theorems and non-vacuity examples live here; helper lemmas are in `Lemmas.lean`,
 `Tree.lean`, `Path.lean`, ….  All theorems quantify over every ordered rooted tree `t` with
@@ -54,14 +56,8 @@ example : IsSimplePath exTree [4, 1, 0, 5, 6, 7] 4 7 := by decide
 /-- Every simple path from `a` to `b` is the list `path_from_to(a, b)` returns: "the result of
     elementary graph search" is a well-defined notion and the routine computes it. -/
 theorem simple_path_is_path_from_to (t : RTree) (hwf : t.WF) (a b : Nat) (p : List Nat)
-    (h : IsSimplePath t p a b) : pathFromTo t a b = some p := by
-  have ha : a ∈ ids t := h.2.2.1 a (List.mem_of_head? h.1)
-  have hb : b ∈ ids t := h.2.2.1 b (List.mem_of_getLast? h.2.1)
-  by_cases hab : a = b
-  · subst hab
-    rw [simple_path_self h]; simp [pathFromTo]
-  · obtain ⟨pre, c, xs, ys, hpa, hpb, hd, hp⟩ := pathFromTo_shape hwf ha hb hab
-    rw [hp, simple_path_shape hwf h hpa hpb hd]
+    (h : IsSimplePath t p a b) : pathFromTo t a b = some p :=
+  simple_path_eq_pathFromTo hwf h
 
 /-- Two simple paths between the same end points are equal. -/
 theorem simple_path_unique (t : RTree) (hwf : t.WF) (a b : Nat) (p q : List Nat)
@@ -142,5 +138,75 @@ theorem subtree_size_correct (t : RTree) (x : Nat) :
 example : subtreeIds exTree 5 = some [5, 6, 7] := by decide
 example : leavesUnder exTree 1 = some [3, 4] := by decide
 example : IsBelow exTree 5 7 := ⟨[0, 5, 6, 7], by decide, by decide⟩
+
+/-! ### The TDVP update path -/
+
+/-- `TDVPUpdatePathFinder(t).find_path()` completes (no index error, no failed assertion, `max` of
+    an empty dict never taken) and visits every node exactly once. -/
+theorem update_path_perm (t : RTree) (hwf : t.WF) :
+    ∃ p, updatePath t = some p ∧ p.Perm (ids t) ∧ p.Nodup := by
+  cases t with
+  | node r ks =>
+    obtain ⟨p, s, hp, _, hperm, _, _⟩ := updatePath_spec r ks hwf
+    have hperm' : p.Perm (ids (node r ks)) := by simpa using hperm
+    exact ⟨p, hp, hperm', hperm'.symm.nodup hwf⟩
+
+/-- The update path starts at `find_start_node_id()`, which is a leaf of maximal depth: a node
+    without children whose way to the root is at least as long as that of any other node. -/
+theorem update_path_start (t : RTree) (hwf : t.WF) :
+    ∃ p s, updatePath t = some p ∧ findStart t = some s ∧ p.head? = some s ∧ s ∈ ids t ∧
+      isLeaf t s = true ∧
+      ∀ y py, rootPath t y = some py → ∃ ps, rootPath t s = some ps ∧ py.length ≤ ps.length := by
+  cases t with
+  | node r ks =>
+    obtain ⟨p, s, hp, hs, _, hhead, _⟩ := updatePath_spec r ks hwf
+    obtain ⟨s', _, hs', _, _, hmem, hleaf⟩ := findStart_spec (node r ks) hwf
+    rw [hs] at hs'; simp at hs'; subst hs'
+    exact ⟨p, s, hp, hs, hhead, hmem, hleaf, findStart_deepest _ hwf hs⟩
+
+/-- The update path ends at a node with at most one neighbour (the root if it has a single child,
+    a leaf otherwise). -/
+theorem update_path_end (t : RTree) (hwf : t.WF) :
+    ∃ p l, updatePath t = some p ∧ p.getLast? = some l ∧ degree t l ≤ 1 := by
+  cases t with
+  | node r ks =>
+    obtain ⟨p, s, hp, _, _, _, hend⟩ := updatePath_spec r ks hwf
+    rcases hend with ⟨hlen, hlast⟩ | ⟨f, hlast, hleaf⟩
+    · exact ⟨p, r, hp, hlast, degree_root_le_one hwf hlen⟩
+    · exact ⟨p, f, hp, hlast, degree_leaf hwf hleaf⟩
+
+example : updatePath exTree = some [7, 6, 5, 2, 0, 4, 1, 3] := by decide
+example : degree exTree 1 = 3 ∧ degree exTree 7 = 1 ∧ isLeaf exTree 7 = true := by decide
+/-- root with a single child: the path ends at the root -/
+example : updatePath (.node 0 [.node 1 [.node 2 [], .node 3 []]]) = some [2, 3, 1, 0] := by decide
+
+/-! ### Keys of the initial environment cache -/
+
+/-- `init_cache_but_one(state, hamiltonian, c)` creates exactly `n - 1` blocks: one block `(u, ·)`
+    for every node `u ≠ c`, one per edge of the tree (as unoriented pairs the keys are exactly the
+    edges), and every block `(u, v)` points toward `c`: `v` is the first step of
+    `path_from_to(u, c)`. -/
+theorem init_cache_keys (t : RTree) (hwf : t.WF) (c : Nat) (hc : c ∈ ids t) :
+    ∃ keys, cacheKeys c t = some keys ∧
+      keys.length + 1 = (ids t).length ∧
+      (keys.map (·.1) ++ [c]).Perm (ids t) ∧
+      (keys.map unord).Perm ((edges t).map unord) ∧
+      ∀ u v, (u, v) ∈ keys → ∃ rest, pathFromTo t u c = some (u :: v :: rest) := by
+  cases hk : cacheKeys c t with
+  | none => exact absurd hc (((cacheKeys_spec c).1 t).2 hk)
+  | some keys =>
+    obtain ⟨h1, h2⟩ := ((cacheKeys_spec c).1 t).1 keys hk
+    refine ⟨keys, rfl, ?_, h1, h2, ?_⟩
+    · have := h1.length_eq
+      simpa using this
+    · intro u v huv
+      obtain ⟨pd, hpd⟩ := pathDown_some_of_mem hc
+      rcases (cacheKeys_direction c).1 t keys pd hk hpd hwf u v huv with ⟨g1, g2⟩ | ⟨l1, l2, g⟩
+      · exact next_hop_up hwf hpd g1 g2
+      · exact ⟨l2, next_hop_down hwf (g ▸ hpd)⟩
+
+example : cacheKeys 7 exTree = some [(3, 1), (4, 1), (1, 0), (2, 0), (0, 5), (5, 6), (6, 7)] := by
+  decide
+example : 7 ∈ ids exTree := by decide
 
 end Ptn.C17
